@@ -70,7 +70,9 @@ Rec(op, args, ret) ==
 Done(op, args, ret, ev) ==
     IF ~RecordHist THEN hist' = hist ELSE
     hist' = Append(hist, [op |-> op, args |-> args, ret |-> ret, ev |-> ev,
-                          order |-> order', cur |-> cur', now |-> now'])
+                          order |-> order', cur |-> cur', now |-> now',
+                          \* deadline of every entry, in recency order (0: none): an overwrite replaces it
+                          exp |-> [i \in 1..Len(order') |-> ent'[order'[i]].exp]])
 
 Init ==
     /\ order = <<>>
